@@ -4,6 +4,6 @@
 \* UacKeepsWideEnum (60245bf)
 SPECIFICATION TSpec
 CONSTANTS
-  Devs = {"CompositeIsFirst", "ArrayQualOnArrayType"}
+  Devs = {"CompositeIsFirst", "ArrayQualOnArrayType", "FoldedCondKeepsDecay", "FoldedNullVoidPtrIsNpc"}
 POSTCONDITION TraceAccepted
 CHECK_DEADLOCK FALSE
